@@ -659,10 +659,12 @@ def computedIterStep (dataLen itemLen : Nat) (i : Nat) : Out Nat × Nat :=
   else if itemLen * i ≤ dataLen then (.yield (itemLen * i), i + 1)
   else (.done, i + 1)
 
-/-- `ComputedArray::get(idx)`: `none` = `Err(OutOfBounds)`; `some off` = item read at `off`
-(`checked_mul` overflow → OutOfBounds, modelled at 2^64). -/
+/-- `ComputedArray::get(idx)`: `none` = `Err(OutOfBounds)`; `some off` = item read at `off`.
+`idx >= len` → `OutOfBounds` first (/repo fix 504de7e: without it an array of zero-sized items
+answered every index); then `checked_mul` (overflow → OutOfBounds, modelled at 2^64) and `split_off`. -/
 def computedGet (dataLen itemLen idx : Nat) : Option Nat :=
-  if idx * itemLen ≥ 18446744073709551616 then none
+  if idx ≥ computedLen dataLen itemLen then none
+  else if idx * itemLen ≥ 18446744073709551616 then none
   else if idx * itemLen ≤ dataLen then some (idx * itemLen) else none
 
 end FontVerif.ReadIter
